@@ -97,6 +97,7 @@ var (
 	errExecutorConfigMustBeStringOrMap = errors.New(
 		"executor config must be string or map",
 	)
+	errNullEntry = errors.New("null entry is not allowed")
 )
 
 // build builds a DAG from a configuration definition and the base DAG.
@@ -407,6 +408,9 @@ func (b *builder) buildSteps() error {
 	var ret []Step
 
 	for _, stepDef := range b.def.Steps {
+		if stepDef == nil {
+			return fmt.Errorf("%w: steps", errNullEntry)
+		}
 		step, err := b.stepBuilder.buildStep(
 			b.dag.Env, stepDef, b.def.Functions,
 		)
@@ -751,6 +755,9 @@ func buildConfigEnv(vars map[string]string) []string {
 func buildConditions(cond []*conditionDef) []Condition {
 	var ret []Condition
 	for _, v := range cond {
+		if v == nil {
+			continue
+		}
 		ret = append(ret, Condition{
 			Condition: v.Condition,
 			Expected:  v.Expected,
